@@ -40,6 +40,9 @@ type Fault struct {
 func FaultsFromOps(ops []Op) []Fault {
 	var fs []Fault
 	for _, o := range ops {
+		if o.Str("kind") == "" {
+			continue // not a fault (e.g. an injection)
+		}
 		f := Fault{Dir: o.Str("dir"), From: o.Int("from"), To: o.Int("to"), Kind: o.Str("kind"), Arg: o.Int("arg"), At: o.Int("at"), Dur: o.Int("dur")}
 		if f.To == 0 {
 			f.To = f.From
@@ -190,6 +193,13 @@ func (n *Net) deliverAfter(d time.Duration, dir string, ord int, fault string, q
 		n.mu.Unlock()
 		n.inner.SendPacket(q)
 	})
+}
+
+// SetFaults replaces the fault schedule.
+func (n *Net) SetFaults(f []Fault) {
+	n.mu.Lock()
+	n.faults = f
+	n.mu.Unlock()
 }
 
 // ResetOrdinals restarts the per-direction datagram counters (a new dial on the same network).
